@@ -781,6 +781,10 @@ func (tic *TermInCommittee) HandleNewView(nvm *interfaces.NewViewMessage) {
 
 		// rewrite this mess
 		latestVoteBlockHash := latestVote.SignedHeader().PreparedProof().PreprepareBlockRef().BlockHash()
+		if !ppMessageContent.SignedHeader().BlockHash().Equal(latestVoteBlockHash) {
+			tic.logger.Info("LHMSG RECEIVED NEW_VIEW IGNORE - NewView.Preprepare.BlockHash does not match the block hash of the latest prepared proof in NewView.ViewChangeConfirmations")
+			return
+		}
 		if latestVoteBlockHash != nil {
 			isValidDigest := tic.blockUtils.ValidateBlockCommitment(nvmHeader.BlockHeight(), nvm.Block(), latestVoteBlockHash)
 			if !isValidDigest {
